@@ -6,7 +6,7 @@ sys.path.insert(0, os.path.join(os.path.dirname(os.path.abspath(__file__)), ".."
 import engine_check  # noqa: E402
 import monitors_engine as M  # noqa: E402
 
-LEAN_MODULES = ["KmipModel.Props.C08", "KmipModel.Props.C08Twin"]
+LEAN_MODULES = ["KmipModel.Props.C08", "KmipModel.Props.C08Twin", "KmipModel.Props.ServerRun"]
 RULE = ("batches of 1..6 items mixing succeeding and failing operations, with/without batch item IDs, "
         "Stop/Continue/Undo, over random stores; templates carry, with probability 0.3, an attribute that is only "
         "refused when it is set on the object (a handler failing late, after it may have touched the session); patterns [fail X on o; succeed Y; read o] arise from the generator's "
@@ -75,6 +75,11 @@ def run(ctx):
                               "placeholder_follower_part", seed_base=830000)
     twin_pass(ctx)
     real_backend_pass(ctx)
+    # M17: whole connections (several requests each, header options that differ from request to request - Maximum
+    # Response Size, batch options) through the real KmipSession + engine, byte for byte against the composed model;
+    # its implementation monitors on results (complete, none withheld behind a limit the request did not state)
+    import e2e_hook
+    e2e_hook.run(ctx, ["c08"])
 
 
 # ------------------------------------------------------------------ a Continue batch = its items sent one by one
@@ -340,6 +345,9 @@ def search(ctx, broken):
 
 
 def replay(ctx, rep):
+    if (rep.get("replay") or {}).get("kind") == "server-e2e":
+        import e2e_hook
+        return e2e_hook.replay(ctx, rep)
     if (rep.get("replay") or {}).get("kind") == "real-backend":
         fails, _n = real_backend_case(rep["replay"]["seed"])
         for sig, what in fails:
